@@ -288,6 +288,7 @@ theorem k_upceEncode_eq (s : List Nat) (hs : ∀ b ∈ s, b < 256) :
         simp only [h7, h8, if_false]
       simp only [c7, c8, Bool.false_eq_true, if_false, upceModules_err s _ hm, encRes]
 
+when_kernel Gzx.Gen.K03w.upceEncode in
 example : Gen.K03w.upceEncode LG (bytes (bytesOf "0123456")) = encRes (upceModules refTables (bytesOf "0123456")) :=
   k_upceEncode_eq _ (by decide)
 
